@@ -78,7 +78,7 @@ Qed.
 
 (* ---- the invariant of the whole pipeline ---------------------------------------------------------------- *)
 Record PInv (s : pstate) : Prop := mkPInv {
-  pi_dist : Inv 0 (p_dist s);
+  pi_dist : exists k, Inv k (p_dist s);      (* k = what plain transfers added to the distributor's balance *)
   pi_rate : 0 <= p_rate s < DEC;
   pi_bal : nonneg (p_bal s);
   pi_dao : 0 <= p_dao s
@@ -125,7 +125,7 @@ Theorem pipeline_new_epoch c now s fd s' :
     p_active s' = p_active s /\ p_rate s' = p_rate s /\ p_dao_set s' = p_dao_set s /\
     PInv s'.
 Proof.
-  intros I (W1 & W2 & W3 & W4) H. cbn zeta. unfold new_epoch_pipeline in H.
+  intros I (W1 & W2 & W3 & W4) H. destruct (pi_dist s I) as [k ID]. cbn zeta. unfold new_epoch_pipeline in H.
   apply bind_ok in H as [e0 [_ H]].
   apply bind_ok in H as [b1 [H1 H]]. apply collect_ok in H1 as [OK ->].
   apply bind_ok in H as [b2 [H2 H]]. apply collect_ok in H2 as [_ ->].
@@ -140,7 +140,7 @@ Proof.
   assert (SS : ssub (zget DIST b4) (take_rate_fee s (zget DIST b4)) = zget DIST b4 - take_rate_fee s (zget DIST b4)) by (unfold ssub; lia).
   rewrite SS in H5.
   assert (F0 : 0 <= zget DIST b4 - take_rate_fee s (zget DIST b4)) by lia.
-  pose proof (new_epoch_spec _ _ _ _ _ _ _ (pi_dist s I) F0 H5) as SP. cbn zeta in SP. destruct SP as (_ & _ & HB & _).
+  pose proof (new_epoch_spec _ _ _ _ _ _ _ ID F0 H5) as SP. cbn zeta in SP. destruct SP as (_ & _ & HB & _).
   exists b3, b4. cbn zeta. splits; auto; try lia.
   - rewrite (aggregate_dist _ _ _ H4), (aggregate_dist _ _ _ H3). unfold bb2, bb1. rewrite !credit_get. unfold sum_dist, sum_asset. lia.
   - intros C L. unfold take_rate_fee. rewrite C. apply Z.ltb_lt in L. rewrite L. reflexivity.
@@ -153,7 +153,7 @@ Proof.
       * right. split; [lia|]. exists x. apply in_or_app. auto.
     + right. split; auto. exists x. apply in_or_app. auto.
   - constructor; cbn [p_bal p_dao p_active p_rate p_dao_set p_history p_dist].
-    + eapply new_epoch_inv; eauto. apply (pi_dist s I).
+    + exists k. eapply new_epoch_inv; eauto.
     + apply (pi_rate s I).
     + intro a. rewrite zget_zset. destruct (a =? DIST); [lia | apply N4].
     + pose proof (pi_dao s I). lia.
@@ -188,7 +188,8 @@ Proof.
   intros I W H. destruct (pipeline_new_epoch _ _ _ _ _ I W H) as (b3 & b4 & _ & _ & _ & R). cbn zeta in R.
   destruct R as (_ & FB & _ & _ & _ & _ & _ & HN & HDB & _).
   assert (F0 : 0 <= zget DIST b4 - take_rate_fee s (zget DIST b4)) by lia.
-  pose proof (new_epoch_spec _ _ _ _ _ _ _ (pi_dist s I) F0 HN) as SP. cbn zeta in SP.
+  destruct (pi_dist s I) as [k ID].
+  pose proof (new_epoch_spec _ _ _ _ _ _ _ ID F0 HN) as SP. cbn zeta in SP.
   destruct SP as (_ & _ & _ & ne & _ & _ & _ & Full & NotFull).
   cbn zeta. rewrite HDB. replace (d_bal (p_dist s) + (zget DIST b4 - take_rate_fee s (zget DIST b4)) - d_bal (p_dist s))
     with (zget DIST b4 - take_rate_fee s (zget DIST b4)) by lia.
@@ -208,11 +209,12 @@ Definition pop_wf (o : pop) : Prop :=
   | PAggregate assets => assets_wf assets
   | PConfig _ _ rate _ => match rate with Some r => 0 <= r | None => True end
   | PForwardDirect => True
+  | PStray _ => True
   end.
 
 Lemma pstep_inv c now s o s' : PInv s -> pop_wf o -> pstep c now s o = Ok s' -> PInv s'.
 Proof.
-  intros I W H. destruct o as [fd| |ok ts|assets|admin active rate dao]; cbn [pstep] in H.
+  intros I W H. destruct o as [fd| |ok ts|assets|admin active rate dao|x]; cbn [pstep] in H.
   - destruct (pipeline_new_epoch _ _ _ _ _ I W H) as (b3 & b4 & _ & _ & _ & R). cbn zeta in R. apply R.
   - discriminate.
   - apply bind_ok in H as [b [H1 H]]. apply collect_ok in H1 as [_ ->]. inversion H; subst.
@@ -221,6 +223,9 @@ Proof.
     constructor; cbn; try apply I. apply (aggregate_nonneg _ _ _ W (pi_bal s I) H1).
   - apply bind_ok in H as [u1 [H1 H]]. apply bind_ok in H as [u2 [H2 H]]. apply ensure_ok in H2. inversion H; subst.
     constructor; cbn; try apply I. destruct rate as [r|]; [apply Z.ltb_lt in H2; cbn in W; lia | apply I].
+  - apply bind_ok in H as [[d' f] [H1 H]]. inversion H; subst. destruct (pi_dist s I) as [k ID].
+    constructor; cbn [p_bal p_dao p_active p_rate p_dao_set p_history p_dist fst]; try apply I.
+    exists (k + stray_of f). eapply dstep_inv; eauto. exact Logic.I.
 Qed.
 
 Definition phist_wf (h : list pevent) : Prop := Forall (fun e => pop_wf (snd e)) h.
@@ -228,7 +233,7 @@ Definition phist_wf (h : list pevent) : Prop := Forall (fun e => pop_wf (snd e))
 Lemma pinv_init g : 1 <= g -> PInv (pinit g).
 Proof.
   intro G. constructor; cbn; try lia.
-  - apply inv_init; auto.
+  - exists 0. apply inv_init; auto.
   - split; [lia | reflexivity].
   - intro a. cbn. lia.
 Qed.
@@ -239,6 +244,27 @@ Proof.
   revert I. generalize (pinit g). induction h as [|e r IH]; intros s I; cbn [fold_left]; auto.
   inversion W; subst. apply IH; auto. unfold phstep.
   destruct (pstep c (fst e) s (snd e)) as [s'| |] eqn:E; auto. eapply pstep_inv; eauto.
+Qed.
+
+(* in every reachable state the distributor holds at least what its epochs still account for *)
+Theorem pipeline_distributor_solvent c g h : 1 <= g -> phist_wf h ->
+  sum_avail (d_epochs (p_dist (prun c g h))) <= d_bal (p_dist (prun c g h)).
+Proof.
+  intros G W. destruct (pi_dist _ (pipeline_inv c g h G W)) as [k ID].
+  pose proof (inv_bal _ _ ID). pose proof (inv_k _ _ ID). lia.
+Qed.
+
+(* a plain transfer of the distribution asset to the distributor adds to its balance and touches nothing else *)
+Theorem pipeline_plain_transfer_frame c now s x s' :
+  pstep c now s (PStray x) = Ok s' ->
+  0 < x /\ p_bal s' = p_bal s /\ p_dao s' = p_dao s /\ p_history s' = p_history s /\
+  p_active s' = p_active s /\ p_rate s' = p_rate s /\ p_dao_set s' = p_dao_set s /\
+  d_bal (p_dist s') = d_bal (p_dist s) + x /\ d_epochs (p_dist s') = d_epochs (p_dist s) /\
+  d_cursor (p_dist s') = d_cursor (p_dist s) /\ d_grace (p_dist s') = d_grace (p_dist s).
+Proof.
+  intro H. cbn [pstep dstep] in H. apply bind_ok in H as [[d' f] [H1 H]]. inversion H; subst; clear H.
+  apply bind_ok in H1 as [u [H0 H1]]. apply ensure_ok in H0. apply Z.ltb_lt in H0. inversion H1; subst.
+  cbn. repeat split; auto.
 Qed.
 
 (* only the fee distributor can trigger forwarding; a rejected / failing step changes nothing *)
